@@ -303,16 +303,18 @@ def anyTri {α} (f : α → Tri) : List α → Tri
 def importsOf (I : List (String × String)) (n : String) : List String :=
   (I.filter (·.1 == n)).map (·.2)
 
-/-- `_env_imports_namespace(env of n, goal)` -/
-def importReach (I : List (String × String)) (goal : String) : Nat → String → Tri
+/-- depth-first search for `goal` from `n` in the graph `succ`, without a visited set, on fuel: `yes` = reached,
+`no` = every branch ended, `fuel` = some branch was cut. (`_env_imports_namespace` and the loop of
+`Alias.set_attributes` keep a visited set; on the acyclic graphs they run on the answers are the same.) -/
+def search {α} [BEq α] (succ : α → List α) (goal : α) : Nat → α → Tri
   | 0, _ => .fuel
-  | f + 1, n => anyTri (fun m => if m == goal then .yes else importReach I goal f m) (importsOf I n)
+  | f + 1, n => if n == goal then .yes else anyTri (search succ goal f) (succ n)
 
 def addImport (nss : List String) (I : List (String × String)) (ns target : String) :
     Except Err (List (String × String)) :=
   if ns == target then .error .importSelf
   else if !nss.contains target then .error .importUndefined
-  else match importReach I ns (nss.length + 1) target with
+  else match anyTri (search (importsOf I) ns (nss.length + 1)) (importsOf I target) with
     | .yes => .error .importCircular
     | .fuel => .error .fuelImports
     | .no => .ok ((ns, target) :: I)
@@ -338,6 +340,34 @@ def buildEnv (fs : List File) : Except Err Env :=
   | .ok st => match addImportsFiles st.nss [] fs with
     | .error e => .error e
     | .ok I => .ok { files := fs, nss := st.nss, items := st.items, imports := I }
+
+/-- the declarations of a namespace, files in command-line order -/
+def declsOf (fs : List File) (ns : String) : List Decl :=
+  (fs.filter (·.ns == ns)).flatMap (·.decls)
+
+def typeDecls : List Decl → List TypeDecl
+  | [] => []
+  | .type d :: ds => d :: typeDecls ds
+  | _ :: ds => typeDecls ds
+
+def aliasDecls : List Decl → List (String × TRef)
+  | [] => []
+  | .alias n r :: ds => (n, r) :: aliasDecls ds
+  | _ :: ds => aliasDecls ds
+
+def routeDecls : List Decl → List RouteDecl
+  | [] => []
+  | .route r :: ds => r :: routeDecls ds
+  | _ :: ds => routeDecls ds
+
+def allTypeDecls (fs : List File) : List TypeDecl := typeDecls (fs.flatMap (·.decls))
+
+def populateFuel (E : Env) : Nat := (allTypeDecls E.files).length + 1
+
+def allAliasDecls (fs : List File) : List (String × TRef) := aliasDecls (fs.flatMap (·.decls))
+
+/-- bound of every walk along alias targets: number of alias declarations + 1 -/
+def aliasFuel (E : Env) : Nat := (allAliasDecls E.files).length + 1
 
 /-! ## `_resolve_type` -/
 
@@ -371,20 +401,23 @@ def instBuiltin (rx : String → Bool) (k : TyKind) (tys : List Ty) (lits : List
 /-- aliases whose target is set (`alias.data_type is not None`) -/
 abbrev AliasMap := List (Key × Ty)
 
+/-- the target of an alias, where it is known -/
+abbrev Look := Key → Option Ty
+
+def lookOf (A : AliasMap) : Look := fun k => A.lookup k
+
 /-- `unwrap_aliases(t)[0]`; `none` = Python `None` (an alias without target yet) -/
-def unwrapAliases (A : AliasMap) : Nat → Ty → Except Err (Option Ty)
-  | f + 1, .alias k => match A.lookup k with
+def unwrapAliases (look : Look) : Nat → Ty → Except Err (Option Ty)
+  | f + 1, .alias k => match look k with
     | none => .ok none
-    | some t => unwrapAliases A f t
+    | some t => unwrapAliases look f t
   | 0, .alias _ => .error .fuelAlias
   | _, t => .ok (some t)
 
-def aliasFuel (A : AliasMap) : Nat := A.length + 1
-
 /-- the end of `_resolve_type`: `if type_ref.nullable: ...` -/
-def wrapNull (A : AliasMap) (nullable : Bool) (t : Ty) : Except Err Ty :=
+def wrapNull (fuel : Nat) (look : Look) (nullable : Bool) (t : Ty) : Except Err Ty :=
   if !nullable then .ok t else
-  match unwrapAliases A (aliasFuel A) t with
+  match unwrapAliases look fuel t with
   | .error e => .error e
   | .ok (some (.nullable _)) => .error .nullableNullable
   | .ok (some (.prim (.plain .void))) => .error .voidNullable
@@ -415,8 +448,8 @@ def nonClass (ens : String) (h : RefHead) (hasArgs : Bool) : Entry → Except Er
   | .item (.type _) => if hasArgs then .error .attrsOnUser else .ok (.user (ens, h.name))
   | .item (.alias _) => if hasArgs then .error .attrsOnUser else .ok (.alias (ens, h.name))
 
-def finish (A : AliasMap) (wrap : Bool) (h : RefHead) (t : Ty) : Except Err Ty :=
-  if wrap then wrapNull A h.nullable t else .ok t
+def finish (fuel : Nat) (look : Look) (wrap : Bool) (h : RefHead) (t : Ty) : Except Err Ty :=
+  if wrap then wrapNull fuel look h.nullable t else .ok t
 
 /-- `_resolve_type(env of cur, r)`; `wrap = false` stops before the final `if type_ref.nullable` (the caller that
 enforces full definition does its work there) -/
@@ -428,11 +461,11 @@ def resolveW (rx : String → Bool) (E : Env) (A : AliasMap) (wrap : Bool) (cur 
       if k == .void && h.nullable then .error .voidNullable else
       (match instBuiltin rx k [] lits h.kw with
        | .error e => .error e
-       | .ok t => finish A wrap h t)
+       | .ok t => finish (aliasFuel E) (lookOf A) wrap h t)
     | .ok (ens, ent) =>
       (match nonClass ens h (!lits.isEmpty || !h.kw.isEmpty) ent with
        | .error e => .error e
-       | .ok t => finish A wrap h t)
+       | .ok t => finish (aliasFuel E) (lookOf A) wrap h t)
   | .app1 h a =>
     match headLookup E cur h with
     | .error e => .error e
@@ -443,11 +476,11 @@ def resolveW (rx : String → Bool) (E : Env) (A : AliasMap) (wrap : Bool) (cur 
        | .ok ta =>
          match instBuiltin rx k [ta] [] h.kw with
          | .error e => .error e
-         | .ok t => finish A wrap h t)
+         | .ok t => finish (aliasFuel E) (lookOf A) wrap h t)
     | .ok (ens, ent) =>
       (match nonClass ens h true ent with
        | .error e => .error e
-       | .ok t => finish A wrap h t)
+       | .ok t => finish (aliasFuel E) (lookOf A) wrap h t)
   | .app2 h a b =>
     match headLookup E cur h with
     | .error e => .error e
@@ -461,11 +494,11 @@ def resolveW (rx : String → Bool) (E : Env) (A : AliasMap) (wrap : Bool) (cur 
          | .ok tb =>
            match instBuiltin rx k [ta, tb] [] h.kw with
            | .error e => .error e
-           | .ok t => finish A wrap h t)
+           | .ok t => finish (aliasFuel E) (lookOf A) wrap h t)
     | .ok (ens, ent) =>
       (match nonClass ens h true ent with
        | .error e => .error e
-       | .ok t => finish A wrap h t)
+       | .ok t => finish (aliasFuel E) (lookOf A) wrap h t)
 
 def resolve (rx : String → Bool) (E : Env) (A : AliasMap) (cur : String) (r : TRef) : Except Err Ty :=
   resolveW rx E A true cur r
@@ -500,44 +533,44 @@ structure St where
   nrefs : List Ty := []                   -- `_nullable_refs`
   deriving Repr, Inhabited
 
-/-- `Alias.set_attributes`: is `self` reached from alias `k` through the targets set so far? -/
-def reachK (A : AliasMap) (self : Key) : Nat → Key → Tri
-  | 0, _ => .fuel
-  | f + 1, k =>
-    if k == self then .yes else
-    match A.lookup k with
-    | none => .no
-    | some t => anyTri (reachK A self f) t.aliases
+/-- the aliases the target of alias `k` mentions (through List / Map / Nullable); none while it has no target -/
+def aliasSucc (look : Look) (k : Key) : List Key :=
+  match look k with
+  | some t => t.aliases
+  | none => []
 
 /-- one iteration of `for alias in namespace.aliases` -/
 def setAlias (rx : String → Bool) (E : Env) (st : St) (ns name : String) (r : TRef) : Except Err St :=
   match resolve rx E st.aliases ns r with
   | .error e => .error e
   | .ok t =>
-    match anyTri (reachK st.aliases (ns, name) (st.aliases.length + 2)) t.aliases with
+    match anyTri (search (aliasSucc (lookOf st.aliases)) (ns, name) (aliasFuel E)) t.aliases with
     | .yes => .error .aliasCycle
     | .fuel => .error .fuelAlias
     | .no => .ok { st with aliases := ((ns, name), t) :: st.aliases, nrefs := st.nrefs ++ nullRefs t }
+
+/-- the populated type under a key -/
+def typesOf (done : List (Key × CType)) : Key → Option CType := fun k => done.lookup k
 
 def dupName : List String → Bool
   | [] => false
   | x :: xs => xs.contains x || dupName xs
 
 /-- the names in `_fields_by_name` of the ancestors, nearest first (`while cur_type:` of `set_attributes`) -/
-def ancestorNames (done : List (Key × CType)) : Nat → Option Key → Except Err (List String)
+def ancestorNames (types : Key → Option CType) : Nat → Option Key → Except Err (List String)
   | _, none => .ok []
   | 0, some _ => .error .fuelAncestors
   | f + 1, some p =>
-    match done.lookup p with
+    match types p with
     | none => .error .internal
-    | some c => match ancestorNames done f c.parent with
+    | some c => match ancestorNames types f c.parent with
       | .error e => .error e
       | .ok ns => .ok (c.fields.map (·.name) ++ ns)
 
 /-- `UserDefined.set_attributes` -/
-def setAttributes (st : St) (key : Key) (c : CType) : Except Err St :=
+def setAttributes (fuel : Nat) (st : St) (key : Key) (c : CType) : Except Err St :=
   if dupName (c.fields.map (·.name)) then .error .dupField else
-  match ancestorNames st.done (st.done.length + 1) c.parent with
+  match ancestorNames (typesOf st.done) fuel c.parent with
   | .error e => .error e
   | .ok anc =>
     if c.fields.any (fun f => anc.contains f.name) then .error .parentField
@@ -632,7 +665,7 @@ def populateStep (rx : String → Bool) (E : Env) (st1 : St) (key : Key) (d : Ty
        match mapFields (structField rx E st1.aliases key.1) d.fields with
        | .error e => .error e
        | .ok fields =>
-         setAttributes { st1 with nrefs := st1.nrefs ++ fields.flatMap (fun f => nullRefs f.ty) } key
+         setAttributes (populateFuel E) { st1 with nrefs := st1.nrefs ++ fields.flatMap (fun f => nullRefs f.ty) } key
            { isStruct := true, parent := parent, fields := fields })
   | .union closed =>
     (match unionParentOpt E pty with
@@ -642,7 +675,7 @@ def populateStep (rx : String → Bool) (E : Env) (st1 : St) (key : Key) (d : Ty
        | .error e => .error e
        | .ok fields =>
          if closed && parentIsOpen parent then .error .closedExtendsOpen else
-         setAttributes { st1 with nrefs := st1.nrefs ++ fields.flatMap (fun f => nullRefs f.ty) } key
+         setAttributes (populateFuel E) { st1 with nrefs := st1.nrefs ++ fields.flatMap (fun f => nullRefs f.ty) } key
            (unionCType closed parent fields))
 
 /-- `_populate_struct_type_attributes` / `_populate_union_type_attributes` for the type `key` (declared as `d`);
@@ -669,32 +702,9 @@ def populate (rx : String → Bool) (E : Env) : Nat → List Key → St → Key 
         match st1 with
         | .error e => .error e
         | .ok st1 =>
-          match wrapNull st1.aliases r.head.nullable t with
+          match wrapNull (aliasFuel E) (lookOf st1.aliases) r.head.nullable t with
           | .error e => .error e
           | .ok t' => populateStep rx E { st1 with nrefs := st1.nrefs ++ nullRefs t' } key d (some t')
-
-/-- the declarations of a namespace, files in command-line order -/
-def declsOf (fs : List File) (ns : String) : List Decl :=
-  (fs.filter (·.ns == ns)).flatMap (·.decls)
-
-def typeDecls : List Decl → List TypeDecl
-  | [] => []
-  | .type d :: ds => d :: typeDecls ds
-  | _ :: ds => typeDecls ds
-
-def aliasDecls : List Decl → List (String × TRef)
-  | [] => []
-  | .alias n r :: ds => (n, r) :: aliasDecls ds
-  | _ :: ds => aliasDecls ds
-
-def routeDecls : List Decl → List RouteDecl
-  | [] => []
-  | .route r :: ds => r :: routeDecls ds
-  | _ :: ds => routeDecls ds
-
-def allTypeDecls (fs : List File) : List TypeDecl := typeDecls (fs.flatMap (·.decls))
-
-def populateFuel (E : Env) : Nat := (allTypeDecls E.files).length + 1
 
 def setAliases (rx : String → Bool) (E : Env) (st : St) (ns : String) : List (String × TRef) → Except Err St
   | [] => .ok st
@@ -721,56 +731,60 @@ def pass3Nss (rx : String → Bool) (E : Env) (st : St) : List String → Except
       | .ok st2 => pass3Nss rx E st2 nss
 
 /-- the loop over `_nullable_refs` at the end of `_populate_type_attributes` -/
-def recheckNullable (A : AliasMap) : List Ty → Except Err Unit
+def recheckNullable (fuel : Nat) (look : Look) : List Ty → Except Err Unit
   | [] => .ok ()
   | t :: ts =>
-    match unwrapAliases A (aliasFuel A) t with
+    match unwrapAliases look fuel t with
     | .error e => .error e
     | .ok (some (.nullable _)) => .error .nullableNullable
     | .ok (some (.prim (.plain .void))) => .error .voidNullable
-    | .ok _ => recheckNullable A ts
+    | .ok _ => recheckNullable fuel look ts
 
 def pass3 (rx : String → Bool) (E : Env) : Except Err St :=
   match pass3Nss rx E {} E.nss with
   | .error e => .error e
-  | .ok st => match recheckNullable st.aliases st.nrefs with
+  | .ok st => match recheckNullable (aliasFuel E) (lookOf st.aliases) st.nrefs with
     | .error e => .error e
     | .ok () => .ok st
 
 /-! ## Pass 4: `_populate_field_defaults` (the tests on the type only) -/
 
+def stripNullable : Ty → Ty
+  | .nullable t => stripNullable t
+  | t => t
+
 /-- `unwrap(t)[0]`: through aliases and nullables -/
-def unwrapAll (A : AliasMap) : Nat → Ty → Except Err (Option Ty)
-  | 0, _ => .error .fuelAlias
-  | f + 1, .alias k => match A.lookup k with
-    | none => .ok none
-    | some t => unwrapAll A f t
-  | f + 1, .nullable t => unwrapAll A f t
-  | _ + 1, t => .ok (some t)
+def unwrapAll (look : Look) : Nat → Ty → Except Err (Option Ty)
+  | fuel, t =>
+    match stripNullable t with
+    | .alias k =>
+      (match fuel with
+       | 0 => .error .fuelAlias
+       | f + 1 => match look k with
+         | none => .ok none
+         | some t' => unwrapAll look f t')
+    | u => .ok (some u)
 
-def Ty.size : Ty → Nat
-  | .list e _ _ => e.size + 1
-  | .map k v => k.size + v.size + 1
-  | .nullable t => t.size + 1
-  | _ => 1
-
-def unwrapAllFuel (A : AliasMap) (t : Ty) : Nat :=
-  t.size + (A.map (fun p => p.2.size)).sum + A.length + 1
-
-def defaultField (E : Env) (A : AliasMap) (f : CField) : Except Err Unit :=
-  match unwrapAliases A (aliasFuel A) f.ty with
+/-- the tests of `_populate_field_defaults` on the type of one field; `isUnion k` = the user type `k` is a union -/
+def defaultLegal (fuel : Nat) (look : Look) (isUnion : Key → Bool) (f : CField) : Except Err Unit :=
+  match unwrapAliases look fuel f.ty with
   | .error e => .error e
   | .ok u =>
     if (match u with | some t => t.isVoid | none => false) then .error .voidField
     else if !f.hasDefault then .ok ()
     else if (match f.ty, u with | .alias _, some (.nullable _) => true | _, _ => false) then .error .nullableDefault
-    else match unwrapAll A (unwrapAllFuel A f.ty) f.ty with
+    else match unwrapAll look fuel f.ty with
       | .error e => .error e
       | .ok (some (.prim _)) => .ok ()
-      | .ok (some (.user k)) => (match kindOf E k with
-        | some (.union _) => .ok ()
-        | _ => .error .defaultNotAllowed)
+      | .ok (some (.user k)) => if isUnion k then .ok () else .error .defaultNotAllowed
       | .ok _ => .error .defaultNotAllowed
+
+def isUnionKind : Option TypeKind → Bool
+  | some (.union _) => true
+  | _ => false
+
+def defaultField (E : Env) (A : AliasMap) (f : CField) : Except Err Unit :=
+  defaultLegal (aliasFuel E) (lookOf A) (fun k => isUnionKind (kindOf E k)) f
 
 def defaultFields (E : Env) (A : AliasMap) : List CField → Except Err Unit
   | [] => .ok ()
@@ -822,21 +836,29 @@ def subtypeFields (rx : String → Bool) (E : Env) (st : St) (ns : String) :
 
 /-- the `for subtype_field in subtype_fields` loop of `Struct.set_enumerated_subtypes`;
 `names` = `_fields_by_name` keys so far, `seen` = `enumerated_subtype_names` -/
-def enumLoop (st : St) (self : Key) : List String → List String → List (String × Key) → Except Err (List String)
+def enumLoop (parentOf : Key → Option Key) (self : Key) :
+    List String → List String → List (String × Key) → Except Err (List String)
   | _, seen, [] => .ok seen
   | names, seen, (tag, k) :: rest =>
     if seen.contains k.2 then .error .subtypeTwice
-    else if (st.done.lookup k).bind (·.parent) != some self then .error .notSubtype
+    else if parentOf k != some self then .error .notSubtype
     else if names.contains tag then .error .tagFieldClash
-    else enumLoop st self (tag :: names) (k.2 :: seen) rest
+    else enumLoop parentOf self (tag :: names) (k.2 :: seen) rest
 
-def setEnumerated (st : St) (self : Key) (c : CType) (fields : List (String × Key)) : Except Err Unit :=
+/-- `Struct.set_enumerated_subtypes`; `parentOf` = the parent of a populated type, `subtypes` = `self.subtypes` -/
+def enumCheck (parentOf : Key → Option Key) (subtypes : List Key) (self : Key) (c : CType)
+    (fields : List (String × Key)) : Except Err Unit :=
   if c.parent.isSome then .error .enumExtends else
-  match enumLoop st self (c.fields.map (·.name)) [] fields with
+  match enumLoop parentOf self (c.fields.map (·.name)) [] fields with
   | .error e => .error e
   | .ok seen =>
     if fields.isEmpty then .error (.crash .assertionError) else      -- `assert len(self._enumerated_subtypes) > 0`
-    if (subtypesOf st self).any (fun k => !seen.contains k.2) then .error .missingSubtype else .ok ()
+    if subtypes.any (fun k => !seen.contains k.2) then .error .missingSubtype else .ok ()
+
+def parentIn (done : List (Key × CType)) : Key → Option Key := fun k => (done.lookup k).bind (·.parent)
+
+def setEnumerated (st : St) (self : Key) (c : CType) (fields : List (String × Key)) : Except Err Unit :=
+  enumCheck (parentIn st.done) (subtypesOf st self) self c fields
 
 /-- `isinstance(data_type, Struct) and data_type._ast_node.subtypes` -/
 def enumOf (d : TypeDecl) : Option (List (String × TRef) × Bool) :=
@@ -1162,5 +1184,255 @@ def denoteNs (rx : String → Bool) (fs : List File) (ns : String) : Option NsOu
 /-- the Api a set of spec files denotes (`none`: some reference has no meaning) -/
 def denote (rx : String → Bool) (fs : List File) : Option Api :=
   (optMapM (denoteNs rx fs) (nsNames fs [])).map fun nss => { nss := nss }
+
+/-! ## Specification level: which inputs are legal
+
+`Legal rx fs` is a conjunction of rules over the declarations of ALL files, none of which looks at the order of files
+or declarations (written from docs/lang_ref.rst and the rule catalogue of DESIGN Appendix A):
+
+* names (`namesLegal`): `FeNames.NoClash` -- no two definitions with the same canonical name in one namespace unless
+  both are routes, no route version twice, no definition named like its namespace, no built-in name redefined;
+* imports (`importsLegal`): no namespace imports itself, every imported namespace exists, no namespace is imported
+  (directly or through others) by a namespace it imports;
+* references (`refStatic`, `tyNullLegal`): the (prefixed) name means a built-in type with legal arguments (C01's
+  `FeParams.instantiate`), or a struct / union / alias without arguments; a prefix is an imported namespace; a name that
+  is also an imported namespace means that namespace; `Void` is never nullable, neither is a type that is nullable or
+  Void once its aliases are unfolded;
+* aliases (`aliasLegal`): the target is a legal reference and does not lead back to the alias through aliases, List,
+  Map and Nullable;
+* structs and unions (`typeLegal`): the parent is a plain reference to a struct (for a struct) / a union (for a union),
+  a closed union does not extend an open one; struct members have a type that is not Void (aliases unfolded), a
+  nullable member has no default, a default needs a primitive or union type; the tag `other` is reserved, a tag is not
+  declared `Void`; no member name (the implicit `other` included) occurs twice in the type or in the type and an
+  ancestor -- which also says the chain of parents ends;
+* enumerated subtypes (`enumLegal`): the root has no parent, every listed subtype is known by its plain name, is a
+  struct, has the root as parent, is listed once, under a tag that is no member name and no other tag; at least one is
+  listed; every struct that extends the root is listed; a listed subtype that does not enumerate subtypes itself has
+  none;
+* routes (`routeLegal`): three legal type references; `deprecated by` names a route and version of the namespace.
+-/
+
+def isOk {ε α} : Except ε α → Bool
+  | .ok _ => true
+  | .error _ => false
+
+def allPairs (fs : List File) : List (String × Decl) := fs.flatMap fun f => f.decls.map fun d => (f.ns, d)
+
+def declItem : Decl → Option FeNames.Item
+  | .type d => some { kind := .type, name := d.name.toList }
+  | .alias n _ => some { kind := .alias, name := n.toList }
+  | .route r => some { kind := .route r.version, name := r.name.toList }
+  | .annot n => some { kind := .annotation, name := n.toList }
+  | .annotType n => some { kind := .annotationType, name := n.toList }
+  | .imp _ => none
+
+/-- the files as the name rules of C01 see them -/
+def toNames (fs : List File) : List FeNames.File :=
+  fs.map fun f => { ns := f.ns.toList, items := f.decls.filterMap declItem }
+
+def namesLegal (fs : List File) : Bool := decide (FeNames.NoClash (toNames fs))
+
+/-- namespace names are `ID` tokens of the lexer: no `/` (a hypothesis on the parser's output, not a rule) -/
+def nsLexical (fs : List File) : Bool := fs.all fun f => !f.ns.toList.contains '/'
+
+def importOf : String × Decl → Option (String × String)
+  | (ns, .imp t) => some (ns, t)
+  | _ => none
+
+def importPairs (fs : List File) : List (String × String) := (allPairs fs).filterMap importOf
+
+def importsLegal (fs : List File) : Bool :=
+  let I := importPairs fs
+  let nss := nsNames fs []
+  I.all fun p => p.1 != p.2 && nss.contains p.2 &&
+    anyTri (search (importsOf I) p.1 (nss.length + 1)) (importsOf I p.2) == .no
+
+/-- the name every definition binds -/
+def anyName : Decl → Option String
+  | .type d => some d.name
+  | .alias n _ => some n
+  | .route r => some r.name
+  | .annot n => some n
+  | .annotType n => some n
+  | .imp _ => none
+
+/-- `name` means something in namespace `ns`: an imported namespace, a definition, a built-in type -/
+def known (fs : List File) (ns name : String) : Bool :=
+  imported fs ns name || (declsOf fs ns).any (fun d => anyName d == some name) || (TyKind.ofName? name).isSome
+
+/-- the target every alias denotes -/
+def aliasS (rx : String → Bool) (fs : List File) : Look := fun k =>
+  match findDef fs k.1 k.2 with
+  | some (.alias _ r) => denoteRef rx fs k.1 r
+  | _ => none
+
+/-- the data type every struct / union declaration denotes -/
+def typeS (rx : String → Bool) (fs : List File) : Key → Option CType := fun k =>
+  match findDef fs k.1 k.2 with
+  | some (.type d) => denoteType rx fs k.1 d
+  | _ => none
+
+def kindS (fs : List File) (k : Key) : Option TypeKind :=
+  match findDef fs k.1 k.2 with
+  | some (.type d) => some d.kind
+  | _ => none
+
+def fuelA (fs : List File) : Nat := (allAliasDecls fs).length + 1
+def fuelT (fs : List File) : Nat := (allTypeDecls fs).length + 1
+
+/-- the head of a reference, where the name is not also an imported namespace of the namespace it is read in -/
+def headS (fs : List File) (cur : String) (h : RefHead) : Option (String × Meaning) :=
+  match headMeaning fs cur h with
+  | some (ens, m) => if imported fs ens h.name then none else some (ens, m)
+  | none => none
+
+def voidNullable (k : TyKind) (h : RefHead) : Bool := k == .void && h.nullable
+
+/-- the reference is well formed, aliases not looked into -/
+def refStatic (rx : String → Bool) (fs : List File) (cur : String) : TRef → Bool
+  | .leaf h lits =>
+    match headS fs cur h with
+    | some (_, .builtin k) => !voidNullable k h && (builtinMeaning rx k [] lits h.kw).isSome
+    | some (_, _) => lits.isEmpty && h.kw.isEmpty
+    | none => false
+  | .app1 h a =>
+    match headS fs cur h with
+    | some (ens, .builtin k) =>
+      !voidNullable k h && refStatic rx fs ens a &&
+        (match denoteRef rx fs ens a with
+         | some ta => (builtinMeaning rx k [ta] [] h.kw).isSome
+         | none => false)
+    | _ => false
+  | .app2 h a b =>
+    match headS fs cur h with
+    | some (ens, .builtin k) =>
+      !voidNullable k h && refStatic rx fs ens a && refStatic rx fs ens b &&
+        (match denoteRef rx fs ens a, denoteRef rx fs ens b with
+         | some ta, some tb => (builtinMeaning rx k [ta, tb] [] h.kw).isSome
+         | _, _ => false)
+    | _ => false
+
+/-- the type under a `?` is neither nullable nor Void once its aliases are unfolded -/
+def nullOK (look : Look) (fuel : Nat) (u : Ty) : Bool :=
+  match unwrapAliases look fuel u with
+  | .ok (some (.nullable _)) => false
+  | .ok (some (.prim (.plain .void))) => false
+  | .ok _ => true
+  | .error _ => false
+
+def tyNullLegal (look : Look) (fuel : Nat) (t : Ty) : Bool := (nullRefs t).all (nullOK look fuel)
+
+def refLegal (rx : String → Bool) (fs : List File) (ns : String) (r : TRef) : Bool :=
+  refStatic rx fs ns r &&
+    match denoteRef rx fs ns r with
+    | some t => tyNullLegal (aliasS rx fs) (fuelA fs) t
+    | none => false
+
+def aliasLegal (rx : String → Bool) (fs : List File) (ns name : String) (r : TRef) : Bool :=
+  refLegal rx fs ns r &&
+    match denoteRef rx fs ns r with
+    | some t => anyTri (search (aliasSucc (aliasS rx fs)) (ns, name) (fuelA fs)) t.aliases == .no
+    | none => false
+
+def structMemberLegal (rx : String → Bool) (fs : List File) (ns : String) (f : AField) : Bool :=
+  match f.ty with
+  | none => false
+  | some r => refLegal rx fs ns r &&
+    match denoteRef rx fs ns r with
+    | some t => !t.isVoid && !(t.isNullable && f.hasDefault)
+    | none => false
+
+def unionMemberLegal (rx : String → Bool) (fs : List File) (ns : String) (f : AField) : Bool :=
+  f.name != "other" &&
+    match f.ty with
+    | none => true
+    | some r => refLegal rx fs ns r &&
+      match denoteRef rx fs ns r with
+      | some t => !t.isVoid
+      | none => false
+
+/-- the `extends` clause: a plain reference to a type of the right kind; not closed below open -/
+def extendsLegal (rx : String → Bool) (fs : List File) (ns : String) (d : TypeDecl) : Bool :=
+  match d.extends with
+  | none => true
+  | some r => !r.head.nullable && refStatic rx fs ns r &&
+    match denoteRef rx fs ns r with
+    | some (.user p) =>
+      (match d.kind, kindS fs p with
+       | .struct, some .struct => true
+       | .union closed, some (.union pclosed) => !(closed && !pclosed)
+       | _, _ => false)
+    | _ => false
+
+/-- the structs that extend `k`, in any namespace -/
+def subtypesS (rx : String → Bool) (fs : List File) (k : Key) : List Key :=
+  (allPairs fs).filterMap fun p =>
+    match p.2 with
+    | .type d => if denoteParent rx fs p.1 d == some (some k) then some (p.1, d.name) else none
+    | _ => none
+
+def hasEnumS (fs : List File) (k : Key) : Bool :=
+  match findDef fs k.1 k.2 with
+  | some (.type d) => (match enumOf d with
+    | some (subs, _) => !subs.isEmpty
+    | none => false)
+  | _ => false
+
+def subtypeRefLegal (rx : String → Bool) (fs : List File) (ns : String) (p : String × TRef) : Bool :=
+  known fs ns p.2.head.name && refLegal rx fs ns p.2 &&
+    match denoteRef rx fs ns p.2 with
+    | some (.user k) => kindS fs k == some .struct
+    | _ => false
+
+def enumLegal (rx : String → Bool) (fs : List File) (ns : String) (d : TypeDecl) (c : CType) : Bool :=
+  match enumOf d with
+  | none => true
+  | some (subs, _) =>
+    subs.all (subtypeRefLegal rx fs ns) &&
+      match optMapM (subDen rx fs ns) subs with
+      | none => false
+      | some fields =>
+        isOk (enumCheck (fun k => (typeS rx fs k).bind (·.parent)) (subtypesS rx fs (ns, d.name)) (ns, d.name) c fields) &&
+          fields.all (fun p => hasEnumS fs p.2 || (subtypesS rx fs p.2).isEmpty)
+
+def typeLegal (rx : String → Bool) (fs : List File) (ns : String) (d : TypeDecl) : Bool :=
+  extendsLegal rx fs ns d &&
+  (match d.kind with
+   | .struct => d.fields.all (structMemberLegal rx fs ns)
+   | .union _ => d.fields.all (unionMemberLegal rx fs ns)) &&
+  match denoteType rx fs ns d with
+  | none => false
+  | some c =>
+    !dupName (c.fields.map (·.name)) &&
+    (match ancestorNames (typeS rx fs) (fuelT fs) c.parent with
+     | .ok anc => !(c.fields.any fun f => anc.contains f.name)
+     | .error _ => false) &&
+    (match d.kind with
+     | .struct => c.fields.all fun f =>
+         isOk (defaultLegal (fuelA fs) (aliasS rx fs) (fun k => isUnionKind (kindS fs k)) f)
+     | .union _ => true) &&
+    enumLegal rx fs ns d c
+
+def deprecatedLegal (fs : List File) (ns : String) : Option (Option (String × Int)) → Bool
+  | some (some (name, v)) =>
+    !imported fs ns name && (routeDecls (declsOf fs ns)).any (fun r => r.name == name && r.version == v)
+  | _ => true
+
+def routeLegal (rx : String → Bool) (fs : List File) (ns : String) (r : RouteDecl) : Bool :=
+  refLegal rx fs ns r.arg && refLegal rx fs ns r.result &&
+    (match r.error with
+     | some e => refLegal rx fs ns e
+     | none => false) &&
+    deprecatedLegal fs ns r.deprecated
+
+def declLegal (rx : String → Bool) (fs : List File) (ns : String) : Decl → Bool
+  | .type d => typeLegal rx fs ns d
+  | .alias n r => aliasLegal rx fs ns n r
+  | .route r => routeLegal rx fs ns r
+  | _ => true
+
+/-- the set of spec files obeys every rule -/
+def Legal (rx : String → Bool) (fs : List File) : Bool :=
+  namesLegal fs && importsLegal fs && (allPairs fs).all fun p => declLegal rx fs p.1 p.2
 
 end StoneVerif.FeCompile
